@@ -40,6 +40,9 @@ def _build(names, circular, key0=0, with_resids=True):
         # e.g. a .json sequence without resid entries: MetaMolecule numbers the residues itself (node + 1)
         for k in g.nodes:
             del g.nodes[k]["resid"]
+    for i, j in list(g.edges):
+        # every backbone edge carries labels, among them values that are false in a boolean context (0, False, "")
+        g.edges[(i, j)].update({"seg": min(i, j), "flexible": False, "note": "" if min(i, j) % 2 else "n%d" % min(i, j)})
     if circular:
         n = len(names)
         g.add_edge(0, n - 1)
